@@ -64,6 +64,7 @@ def run(ctx):
     from . import c06, c17
     c06.reader_deps(ctx, "C16")
     c17.writers_rule(ctx, "C16.W")          # an empty input still produces its (empty) output file
+    c17.open_rules(dep(ctx, "C16", "C17"))  # .. of exactly the computed size (0 records: 0 bytes, no filler byte)
     ctor_total_rule(ctx)
     subtraction_audit(ctx)
     domain_audit(ctx)
